@@ -237,8 +237,10 @@ func (p *MetadataPersister) GetHeaderByLinkname(ctx context.Context, linkname st
 func (p *MetadataPersister) GetHeaderChildren(ctx context.Context, name string) ([]*config.Header, error) {
 	name = p.getSanitizedPath(ctx, name)
 
+	// Compare the prefix literally: `like` would treat `_` and `%` in names as wildcards and ignore ASCII case
+	prefix := strings.TrimSuffix(name, "/") + "/" // Prevent double trailing slashes
 	headers, err := models.Headers(
-		qm.Where(models.HeaderColumns.Name+" like ?", strings.TrimSuffix(name, "/")+"/%"), // Prevent double trailing slashes
+		qm.Where("substr("+models.HeaderColumns.Name+", 1, length(?)) = ?", prefix, prefix),
 		qm.Where(models.HeaderColumns.Deleted+" != 1"),
 	).All(ctx, p.sqlite.DB)
 	if err != nil {
